@@ -71,8 +71,10 @@ class Acc:
                  if (not trivial and len(rep.samples) < 1) else None)
         rep.count("groups_per_n_and_source", f"n={n}:{source}")
         if rng is not None:
-            style = rng.randrange(4)
-            if style == 0:          # the same generators in another order
+            style = rng.randrange(6)
+            if style >= 4:          # the heaviest / lightest elements of the group as generators (e.g. every generator acting on every qubit)
+                g2 = members.extreme_weight_basis(gens, n, rng, heavy=(style == 4))
+            elif style == 0:          # the same generators in another order
                 g2 = list(gens)
                 rng.shuffle(g2)
             elif style == 1:        # lightly mixed: one or two row operations, then reordered
@@ -81,7 +83,7 @@ class Acc:
             else:                   # densely mixed
                 g2 = members.random_basis_change(gens, rng, steps=3 * n)
             g2 = members.apply_signs(g2, rng.randrange(1 << n))
-            rep.count("re-presentation_style", ["reordered", "lightly-mixed", "densely-mixed", "densely-mixed"][style])
+            rep.count("re-presentation_style", ["reordered", "lightly-mixed", "densely-mixed", "densely-mixed", "heaviest-elements", "lightest-elements"][style])
             try:
                 cid2 = int(lib_id(n, g2))
             except Exception as e:  # noqa: BLE001
